@@ -242,19 +242,31 @@ def run_case(facet: Facet, case, limit=None):
     """Run facet.check(case) under the watchdog. Returns info or raises Violation."""
     if limit is None:
         limit = facet.time_limit or CASE_TIME_LIMIT_S
+    # Two clocks. Where "did not terminate" is itself the violation (C14), the deciding clock counts the *CPU time of this
+    # process* (ITIMER_PROF): a machine that is merely busy cannot turn a slow case into an alarm. The wall clock - ten times
+    # as generous there - only ever yields "inconclusive" (a harness problem, exit 2), never a violation.
+    # Every facet is bounded the same way (limit = CPU seconds, wall clock = 10 x limit as a backstop for a blocked process).
+    cpu_clock = True
     old = signal.signal(signal.SIGALRM, _alarm_handler)
-    signal.setitimer(signal.ITIMER_REAL, limit)
+    old_prof = signal.signal(signal.SIGPROF, _alarm_handler) if cpu_clock else None
+    signal.setitimer(signal.ITIMER_REAL, limit * (10 if cpu_clock else 1))
+    if cpu_clock:
+        signal.setitimer(signal.ITIMER_PROF, limit)
+        cpu0 = time.process_time()
     try:
         return facet.check(case)
     except CaseTimeout:
-        if facet.timeout_is_violation:
+        if facet.timeout_is_violation and time.process_time() - cpu0 >= 0.9 * limit:
             raise Violation(
-                f"did not run to completion within the {limit:.0f}s watchdog", timeout=True
+                f"did not run to completion within {limit:.0f}s of CPU time (watchdog)", timeout=True
             )
-        raise HarnessProblem(f"watchdog expired ({limit}s) in facet {facet.name}")
+        raise HarnessProblem(f"watchdog expired ({limit}s) in facet {facet.name}: inconclusive")
     finally:
         signal.setitimer(signal.ITIMER_REAL, 0)
         signal.signal(signal.SIGALRM, old)
+        if cpu_clock:
+            signal.setitimer(signal.ITIMER_PROF, 0)
+            signal.signal(signal.SIGPROF, old_prof)
 
 
 # --------------------------------------------------------------------------------------
